@@ -19,8 +19,11 @@ def run_seed(batch_seed: int, prop: str, tier: str, index: int) -> int:
     return int.from_bytes(h.digest(), "big")
 
 
-class Violation(Exception):
-    """A property violation observed by an oracle during a simulated run."""
+class Violation(BaseException):
+    """A property violation observed by an oracle during a simulated run.
+
+    Derives from BaseException on purpose: oracles also run inside hooks called from the
+    code under test, whose `except Exception` handlers must not swallow or re-wrap it."""
 
     def __init__(self, oracle: str, signature: str, detail: Any = None):
         super().__init__(f"{oracle}: {signature}")
@@ -29,7 +32,7 @@ class Violation(Exception):
         self.detail = detail
 
 
-class Discard(Exception):
+class Discard(BaseException):
     """The run left the property's domain (e.g. step cap in a non-terminating program)."""
 
     def __init__(self, reason: str):
@@ -226,6 +229,9 @@ class Sched:
         if not t.done:
             if isinstance(y, tuple) and y and y[0] == "sleep":
                 t.wake = self.now + int(y[1])
+            elif isinstance(y, tuple) and y and y[0] == "wait":
+                # a polling loop must let virtual time pass, or it livelocks the clock
+                t.wake = self.now + 1 + self.cost(t)
             elif isinstance(y, tuple) and y and y[0] == "block":
                 t.pred = y[1]
                 t.wake = self.now
@@ -247,6 +253,7 @@ def shrink(
     choices: List[int],
     still_fails: Callable[[List[int]], Optional[List[int]]],
     budget: int = 1500,
+    wall_s: float = 45.0,
 ) -> List[int]:
     """Minimise a choice record.
 
@@ -255,12 +262,18 @@ def shrink(
     blocks, zero blocks, halve / decrement single values.  0 always means "simplest", so
     lowering values simplifies workload, faults and schedule together.
     """
+    import time as _time
+
     best = list(choices)
     tries = 0
+    t_end = _time.time() + wall_s
 
     def attempt(cand: List[int]) -> bool:
         nonlocal best, tries
         if tries >= budget:
+            return False
+        if _time.time() > t_end:
+            tries = budget
             return False
         tries += 1
         eff = still_fails(cand)
